@@ -71,6 +71,25 @@ def run(prop, path):
             print("reproduced: %d calls return different results in the two orders, first: script %d call %d" % (len(diff), *diff[0]))
         elif kind == "par_stress":
             strip = lambda e: {k: e.get(k) for k in ("ok", "err", "panic", "seq", "ovf")}
+            if r.get("cold"):
+                # the concurrent calls were the first thing the process did: same here, the sequential reference comes
+                # from another process; the deviation is a race, so several attempts
+                hitc = None
+                for attempt in range(20):
+                    with Executor() as ex:
+                        out = ex.call({"op": "par", "threads": r["threads"], "reps": r["reps"]})
+                    with Executor() as ex:
+                        base = [[ex.call(c) for c in cmds] for cmds in r["threads"]]
+                    if any(any(strip(a) != strip(b) for a, b in zip(res[:len(cm)], bs))
+                           for res, cm, bs in zip(out.get("ok", {}).get("results", []), r["threads"], base)):
+                        hitc = attempt
+                        break
+                if hitc is None:
+                    print("does not reproduce in 20 cold starts (timing dependent)")
+                    return 0
+                print("reproduced at cold start %d: a thread's first results differ from the sequential ones" % hitc)
+                print("VIOLATION property=%s replay=%s" % (prop, path))
+                return 1
             with Executor() as ex:
                 base = [[ex.call(c) for c in cmds] for cmds in r["threads"]]
                 out = ex.call({"op": "par", "threads": r["threads"], "reps": r["reps"]})
